@@ -244,6 +244,10 @@ func (e *Engine) runPass(pc *passCtx, pass int, final bool) bool {
 			e.gc(st)
 		}
 		ed := edge{from, to}
+		if pc.isHead[to] && e.logging && e.Cfg.Hooks.OnHeadEdge != nil && !st.dead {
+			e.curFr, e.curIns = fr, from.Instrs[len(from.Instrs)-1]
+			e.Cfg.Hooks.OnHeadEdge(e, st, fr, from, to, pc.pos[from] >= pc.pos[to])
+		}
 		if pc.pos[from] >= pc.pos[to] {
 			newBack[ed] = append(newBack[ed], st)
 		} else {
